@@ -109,6 +109,8 @@ def scenario_files(sc: dict) -> T.Dict[str, str]:
     files: T.Dict[str, str] = {}
     if sc.get('with_sp', True):
         top += f"subproject('sp', default_options: {defopts('call_defaults')})\n"
+        if sc.get('sp_langs'):      # a language only the subproject uses: its compiler options are registered late
+            langs = ''.join(', ' + mstr(l) for l in sc['sp_langs'])
         sp = f"project('sp'{langs}, default_options: {defopts('sp_defaults')})\n"
         sp += reads(sc.get('observe_sp', []))
         files['src/subprojects/sp/meson.build'] = sp
@@ -476,7 +478,7 @@ class Bucket:
 # ---------------------------------------------------------------------------
 # introspection (`meson introspect --buildoptions`)
 
-INT_RANGES = {'unity_size': (2, None), 'python.bytecompile': (-1, 2), 'myint': (-5, 20), 'sp:myint': (-5, 20),
+INT_RANGES = {'unity_size': (2, None), 'python.bytecompile': (-1, 2), 'myint': (-5, 20), 'sp:myint': (-5, 20), 'myint0': (0, 9), 'sp:myint0': (0, 9), 'myintneg': (-9, 0), 'sp:myintneg': (-9, 0), 'myintmin0': (0, None), 'sp:myintmin0': (0, None),
               'install_umask': (0, 0o777)}
 
 
@@ -1042,11 +1044,16 @@ VTARGETS: T.List[T.Tuple[str, str, str, T.Any]] = [
     ('top', 'mystr', 'str', None), ('sp', 'mystr', 'str', None),
     ('top', 'mybool', 'bool', None), ('sp', 'mybool', 'bool', None),
     ('top', 'myint', 'int', (-5, 20)), ('sp', 'myint', 'int', (-5, 20)),
+    ('top', 'myint0', 'int', (0, 9)), ('sp', 'myintneg', 'int', (-9, 0)), ('top', 'myintneg', 'int', (-9, 0)), ('sp', 'myintmin0', 'int', (0, None)),
     ('top', 'mycomb', 'combo', PTYPES['combo']['pool']), ('sp', 'mycomb', 'combo', PTYPES['combo']['pool']),
     ('top', 'myarr', 'array', ['a', 'b', 'c', 'd']), ('sp', 'myarr', 'array', ['a', 'b', 'c', 'd']),
     ('top', 'myfeat', 'feature', None), ('sp', 'myfeat', 'feature', None),
 ]
 ALL_PROJECT_OPTIONS = ''.join(pdecl(PNAME[pt], pt) for pt in PTYPES)
+# integer options with a bound of exactly zero on one side (a bound is a bound, whatever its value)
+ALL_PROJECT_OPTIONS += ("option('myint0', type: 'integer', min: 0, max: 9, value: 4)\n"
+                        "option('myintneg', type: 'integer', min: -9, max: 0, value: -4)\n"
+                        "option('myintmin0', type: 'integer', min: 0, value: 4)\n")
 CHANNELS = {'top': {'cmdline': 3, 'mfile': 2, 'top_default': 0, 'configure': -1},
             'sp': {'cmdline': 7, 'mfile': 6, 'top_default': 4, 'spcall': 5, 'sub_default': 1, 'configure': -1}}
 TEXT_ALPHABET = list("abcxyzABC0189 _-+.:;/\\'\"=,[]#@$%{}()!?*&|<>~^`") + ['é', 'ß', 'Ω']
@@ -1070,9 +1077,9 @@ def value_strategy(typ: str, spec: T.Any) -> T.Any:
         vlo, vhi = (lo if lo is not None else -10**6), (hi if hi is not None else 10**6)
         outs = []
         if lo is not None:
-            outs.append(st.integers(lo - 10**6, lo - 1))
+            outs += [st.integers(lo - 10**6, lo - 1), st.sampled_from([lo - 1, lo - 2])]       # far outside, and right next to the bound
         if hi is not None:
-            outs.append(st.integers(hi + 1, hi + 10**6))
+            outs += [st.integers(hi + 1, hi + 10**6), st.sampled_from([hi + 1, hi + 2])]
 
         def not_int(s: str) -> bool:
             try:
@@ -1489,14 +1496,23 @@ def _compiler_shard(shard: T.Tuple[str, str, T.Any, T.List[T.Any], int, T.List[i
     srcvals['default'] = canon(typ, default)
     group = 'sp-order:compiler'
     bucket = Bucket()
+    sp_only = rot >= 100          # the language is used by the subproject only (the top-level project cannot read the option)
+    if sp_only:
+        group = 'sp-order:compiler-sp-only'
     for mask in masks:
         sc = sp_cell(name, typ, vals, mask)
-        sc['langs'] = ['c']
-        sc['observe_top'] = [[name, typ]]
-        sc['observe_sp'] = [[name, typ]]
-        et, wt = fold(TOP_SRC, mask, vals, default)
         es, ws = fold(range(8), mask, vals, default)
-        expect = {'top': {name: canon(typ, et)}, 'sp': {name: canon(typ, es)}, 'winner': {'top:' + name: wt, 'sp:' + name: ws}}
+        if sp_only:
+            sc['sp_langs'] = ['c']
+            sc['observe_sp'] = [[name, typ]]
+            expect = {'top': {}, 'sp': {name: canon(typ, es)}, 'winner': {'sp:' + name: ws}}
+            wt = 'n/a'
+        else:
+            sc['langs'] = ['c']
+            sc['observe_top'] = [[name, typ]]
+            sc['observe_sp'] = [[name, typ]]
+            et, wt = fold(TOP_SRC, mask, vals, default)
+            expect = {'top': {name: canon(typ, et)}, 'sp': {name: canon(typ, es)}, 'winner': {'top:' + name: wt, 'sp:' + name: ws}}
         f = check_cell(group, sc, expect, f'last present source of the documented list: top-level {wt}, subproject {ws}', root, srcvals)
         bucket.add(f, popcount(mask))
         ev.case({'opt': name, 'mask': mask}, cls=f'{group}:{name}',
@@ -1689,6 +1705,13 @@ def run(ctx: Ctx) -> None:
         for name, typ, default, pool in COMPILER_OPTS:
             for ms in chunks(list(range(256)), 16):
                 shards.append((16 * 15, 'compiler', (name, typ, default, pool, rot, ms)))
+    # the same for a language that only the subproject uses (both tiers; quick: a seeded quarter of the subsets of c_std)
+    for name, typ, default, pool in (COMPILER_OPTS if thorough else COMPILER_OPTS[:1]):
+        allm = [m for m in range(1, 256)]
+        if not thorough:
+            allm = allm[ctx.seed % 4::4]
+        for ms in chunks(allm, 8):
+            shards.append((8 * 15, 'compiler', (name, typ, default, pool, 100 + rot, ms)))
     for pname in PROBES:
         shards.append((30, 'probe', pname))
 
@@ -1733,6 +1756,7 @@ RULE = (
     '-Dopt, parent sp:opt, subproject(default_options:), machine-file sp:opt, -Dsp:opt) for each per-subproject built-in option '
     '(int, combo, bool) and for each project-option type (string, boolean, integer min/max, combo, array with choices, feature) x '
     '{no parent option, same-named parent, yield, yield + same-named parent, yield + parent of another type}, native and cross; '
+    '(a2) every subset (quick: a seeded quarter) of the eight sources for a compiler option (c_std) of a language that only the subproject uses, so that the option is registered late; '
     '(b) every subset of {default_options, machine file, command line} x {explicit, implicit declared default} for all other '
     'built-in/directory/module/per-machine/project options; (c) every (source of buildtype, source of debug, source of '
     'optimization) triple, the same rule on a configured directory (`meson configure` / `setup --reconfigure` with buildtype and explicit debug/optimization in every order on one command line) and every prefix-source subset x explicit/default directories; (d) Hypothesis valid/invalid values per '
